@@ -247,6 +247,20 @@ def run_shard(ctx):
 
     ctx.hypothesis_stage("census", cases(), body, 3000 if quick else 40000)
 
+    # disulfide contacts of every length the distance table allows, along the coordinate axes and diagonals, at
+    # arbitrary offsets relative to the neighbour-search grid
+    def ss_body(t):
+        ents, info = t
+        case = {"pdb": pdbio.write(ents), "optargs": []}
+        v, ci = check_case(case)
+        ci["nontrivial"] = True
+        ci["labels"] = ci.get("labels", []) + ["disulfide-contact", "axis-parallel" if sorted(map(abs, info["direction"]))[1] == 0
+                                               else "oblique"]
+        ci["sample"] = {"structure": "two chains joined by an S-S contact", **info}
+        ctx.account(case, v, ci)
+
+    ctx.hypothesis_stage("disulfide-contacts", gen.bridged_chains(), ss_body, 1500 if quick else 20000)
+
     # every library ligand and every ion name at least once per run, next to a corpus peptide
     names = sorted(gen.LIGANDS) + sorted(gen.IONS)
     mine = [names[i] for i in ctx.my_slice(len(names))]
